@@ -6,10 +6,13 @@ SPEC = Spec(
     harnesses=[
         Harness(name="resolve", module="confmap", pkg="confmap",
                 files={"zz_verif_c12_resolve_test.go": "c12/resolve_test.go"},
-                test="TestVerifC12Resolve", driver="drv_c12", n={"quick": 40000, "thorough": 200000}, timeout_s=1500),
+                test="TestVerifC12Resolve", driver="drv_c12", n={"quick": 32000, "thorough": 400000}, timeout_s=1500),
     ],
-    rule="cases 0-12 are the corpus (both escaping defects of the pinned tree, cycles, $ in a name, typed whole value, nested "
-         "reference, provider value with references/escapes, 999 vs 1000 references, a 5-source merge). Then by case index mod 4: "
+    rule="cases 0-17 are the corpus (both escaping defects of the pinned tree, cycles incl. an embedded one-element cycle, $ in a name, "
+         "typed whole value, nested reference, provider value with references/escapes, 999 vs 1000 references, a 5-source merge, "
+         "indirect references in non-last list positions / map values / nested, a 3-deep structured chain). Then by case index mod 5: "
+         "chain = providers env:L0->..->Lk (k<=3, each link mentions the next once or twice, whole/embedded/inside map or list YAML; "
+         "last link plain or 1 in 30 self-referential) referenced from list elements (deepest chain never last), map values, nested; "
          "tok = 1-3 values rendered from random token lists (0-12 tokens: literals incl. '{' ':' , '}', runs of $$, lone $, "
          "references with/without scheme, escaped copies of a reference that also occurs for real, unterminated '${'); "
          "rand = nested config (depth<=3, lists, nils) whose strings are random concatenations of 26 pieces (nested, malformed, "
